@@ -63,8 +63,9 @@ theorem syncLoop_step (cfg : Cfg) (hs : cfg.sticky = false) (f fuel tmp : Nat) (
   have hst1 : (st.sread cfg 4).2 = { st with pos := st.pos + 4, good := true, eof := false } := by
     unfold St.sread
     simp [hs, hlen]
+  have hgl : (st.sread cfg 4).1.length = 4 := by rw [h1, htake]; rfl
   simp only [syncLoop]
-  rw [hmerge, hst1]
+  rw [hmerge, hst1, hgl]
   have hv := leVal4 a0 a1 a2 a3
   have b0 := u8_lt a0; have b1 := u8_lt a1; have b2 := u8_lt a2; have b3 := u8_lt a3
   have hnsig : leVal [a0, a1, a2, a3] ≠ SIG := by
@@ -78,7 +79,7 @@ theorem syncLoop_step (cfg : Cfg) (hs : cfg.sticky = false) (f fuel tmp : Nat) (
     rw [u8_eq_of_toNat (by decide) e0, u8_eq_of_toNat (by decide) e1, u8_eq_of_toNat (by decide) e2,
       u8_eq_of_toNat (by decide) e3]
     rfl
-  simp only [hnsig, if_false, Bool.false_eq_true]
+  simp only [hnsig, if_false, Bool.false_eq_true, Nat.lt_irrefl, decide_false, Bool.or_self]
   -- the three mask tests, byte-wise
   have t1 : (leVal [a0, a1, a2, a3] / 256 % 16777216 = 0x424F4C) ↔ (a1 = 0x4C ∧ a2 = 0x4F ∧ a3 = 0x42) := by
     rw [hv]
